@@ -31,6 +31,30 @@ type shape struct {
 	Name string
 	Src  string
 	Pre  string // mode "cross" only: what the earlier invocation, under another context, ran
+	Ks   []int  // cancellation instants of its own (instead of 0..maxK)
+}
+
+// fullStackShapes: the cancellation is noticed while the operand stack is full to the last slot, one below, two
+// below: a function with a deferred builtin call builds a list literal of N constants (one push per instruction),
+// the canceller's gate opens at every instant in a window around the N-th push. Whatever the clean-up of the
+// halted call does with the operands it finds, the evaluation reports its context's error.
+func fullStackShapes(thorough bool) []shape {
+	var out []shape
+	ns, lo, hi := []int{1022, 1023}, 1024, 1040
+	if thorough {
+		ns, lo, hi = []int{1019, 1020, 1021, 1022, 1023}, 1012, 1048
+	}
+	var ks []int
+	for k := lo; k <= hi; k++ {
+		ks = append(ks, k)
+	}
+	for _, n := range ns {
+		for _, deferred := range []string{"defer close(d)\n", "defer len(\"ab\")\n", ""} {
+			out = append(out, shape{Name: fmt.Sprintf("list-of-%d-operands-in-a-function%s", n, map[bool]string{true: "-with-a-deferred-builtin", false: ""}[deferred != ""]),
+				Src: "d := chan(1)\nfunc g() {\n" + deferred + "return [" + strings.Repeat("0, ", n) + "tick()]\n}\ng()\nfor { tick() }", Ks: ks})
+		}
+	}
+	return out
 }
 
 func mainShapes() []shape {
@@ -373,6 +397,7 @@ func Check(r *ev.Run, replay string) {
 	if r.Thorough() {
 		bound, maxK, limit = 2, 14, 20000
 	}
+	mains = append(mains, fullStackShapes(r.Thorough())...)
 	children := childPrefixes(r.Thorough())
 	shards := 16
 	if r.Thorough() {
@@ -393,6 +418,12 @@ func Check(r *ev.Run, replay string) {
 					continue
 				}
 				modes := []string{"", "rerun", "call"}
+				if len(mn.Ks) > 0 {
+					if ci != 0 {
+						continue
+					}
+					modes = []string{""}
+				}
 				if mn.Pre != "" {
 					if ci != 0 {
 						continue
@@ -412,6 +443,9 @@ func Check(r *ev.Run, replay string) {
 							continue
 						}
 						ks = append(ks, k)
+					}
+					if len(mn.Ks) > 0 {
+						ks = mn.Ks
 					}
 					if ci == 0 && (strings.Contains(mn.Name, "blocked") || strings.HasPrefix(mn.Name, "wait-") || mn.Name == "sleep") {
 						ks = append(ks, whenBlocked) // and once the main task has blocked
@@ -441,6 +475,14 @@ func Check(r *ev.Run, replay string) {
 						}
 						if mode != "" && k > 12 {
 							continue
+						}
+						if len(mn.Ks) > 0 {
+							// a thousand instructions per execution: the instants are swept, the schedule around each is the default
+							// one (thorough: one deviation)
+							b = 0
+							if r.Thorough() {
+								b = 1
+							}
 						}
 						st := dsched.Explore(sc, b, limit)
 						cases++
@@ -486,7 +528,7 @@ func Check(r *ev.Run, replay string) {
 func finish(r *ev.Run, bound, maxK int) {
 	r.Set("deviation_bound", bound)
 	r.Set("max_cancellation_instant", maxK)
-	r.Set("rule", fmt.Sprintf("child prefixes x main shapes x cancellation instants 0..%d (the canceller's gate opens when the main task has taken k scheduling points = VM instructions, or when the system is idle; for the main shapes that block, also the instant at which the main task has blocked, however many instructions that takes) x every schedule with at most %d deviations (delayed cancel, preempted watcher/child/main; thorough: 2 up to instant 8 for the scenarios without children or with one looping child, 1 elsewhere; the reused-VM modes - RunCode and Call on a VM that already ran with the same context - with at most 1 and up to instant 12); fairness 4 bounds spinning; horizon 60 decisions after the evaluation returned", maxK, bound))
+	r.Set("rule", fmt.Sprintf("child prefixes x main shapes x cancellation instants 0..%d (the canceller's gate opens when the main task has taken k scheduling points = VM instructions, or when the system is idle; for the main shapes that block, also the instant at which the main task has blocked, however many instructions that takes) x every schedule with at most %d deviations (delayed cancel, preempted watcher/child/main; thorough: 2 up to instant 8 for the scenarios without children or with one looping child, 1 elsewhere; the reused-VM modes - RunCode and Call on a VM that already ran with the same context - with at most 1 and up to instant 12); a list literal of 1019..1023 constants in a function with and without a deferred builtin, cancelled at every instant in a window around the last push (the stack exactly full when the halt is noticed); fairness 4 bounds spinning; horizon 60 decisions after the evaluation returned", maxK, bound))
 }
 
 func signature(ch, mn shape, v string) string {
